@@ -72,6 +72,13 @@ static void h_op(void)
     h_out("ok h=%016" PRIx64 " last=%" PRIu64, h, x);
   } else if (!strcmp(op, "roll64")) {
     h_out("ok %" PRIu64, esl_rand64_Roll(R64, h_argu("n", 1)));
+  } else if (!strcmp(op, "deal64")) {
+    int64_t m = h_argi("m", 1), n = h_argi("n", 1), i; int64_t *deal = malloc(sizeof(int64_t) * (size_t)(m + 1));
+    char *buf = malloc(22 * (size_t)(m + 1) + 8), *p = buf;
+    esl_rand64_Deal(R64, m, n, deal);
+    p += sprintf(p, "ok ");
+    for (i = 0; i < m; i++) p += sprintf(p, "%s%" PRId64, i ? "," : "", deal[i]);
+    h_out("%s", buf); free(buf); free(deal);
   } else if (!strcmp(op, "dbl64"))     { h_out("ok %s", h_dbits(esl_rand64_double(R64)));
   } else if (!strcmp(op, "dblclosed")) { h_out("ok %s", h_dbits(esl_rand64_double_closed(R64)));
   } else if (!strcmp(op, "dblopen"))   { h_out("ok %s", h_dbits(esl_rand64_double_open(R64)));
